@@ -35,6 +35,16 @@ fn main() {
     if args[0] == "c20-child" {
         std::process::exit(checks::c20::child_decode(args.get(1).map(|s| s.as_str()).unwrap_or("")));
     }
+    if args[0] == "hashdump" {
+        let n: u64 = args.get(1).and_then(|s| s.parse().ok()).unwrap_or(200);
+        let seed: u64 = std::env::var("VERIF_SEED").ok().and_then(|s| s.parse().ok()).unwrap_or(1);
+        for d in &defs {
+            if args.get(2).map(|x| x == d.property).unwrap_or(true) {
+                frame::hashdump(d, n, Tier::Quick, seed);
+            }
+        }
+        return;
+    }
     let id = args[0].clone();
     let mut tier = match std::env::var("VERIF_TIER").as_deref() {
         Ok("thorough") => Tier::Thorough,
